@@ -38,7 +38,11 @@ def frame(rng, gen: int, kind: str | None = None, pid: int | None = None) -> tup
             return w.f_status(pid, w.T_TIMER_STATUS, w.enc_timer_records({i: {"on": G.timer(rng), "off": G.timer(rng)} for i in range(4)})), kind
         if kind == "ability":
             inst = G.installation(rng, 4, allow_zero_zones=False, state=False)
-            body = b"".join(w.enc_ability_record(a, with_bitmap=inst["ability_format"] == "bitmap") for a in inst["acs"])
+            if rng.random() < 0.4:
+                # console versions may differ per record: each record announces its own following length
+                body = b"".join(w.enc_ability_record(dict(a, groups=a["groups"] or []), with_bitmap=rng.random() < 0.5) for a in inst["acs"])
+            else:
+                body = b"".join(w.enc_ability_record(a, with_bitmap=inst["ability_format"] == "bitmap") for a in inst["acs"])
             return w.f_ext(pid, w.X_ABILITY, body), kind
         if kind == "names":
             n = rng.choice([1, 2, 5, 16])
